@@ -1,7 +1,7 @@
 SPECIFICATION Spec
 CONSTANTS
- MaxLen = 3
- MonoLen = 2
- Twin = "ge"
+ MaxLen = 2
+ MonoLen = 1
+ Twin = "nooldest"
 INVARIANTS Conforms
 CHECK_DEADLOCK FALSE
